@@ -242,6 +242,19 @@ impl Property for C09Prop {
                         return fail("C09:at:captured", format!("`{text}`: {why}"));
                     }
                 }
+                // the index as the tested expression of an if-set / while-set: an index out of bounds is an
+                // error there too, not a failed test
+                for text in [
+                    format!("f := (s: {param_ty}, i: int) -> any {{ if v: any = s[i] {{ return (v, std.len(s)); }} else {{ return \"else\"; }} }}; f({seq_text}, {})", bound_text(Some(i))),
+                    format!("f := (s: {param_ty}, i: int) -> any {{ if v: string|int = s[i] {{ return (s[i], std.len(s)); }} return (s[i], std.len(s)); }}; f({seq_text}, {})", bound_text(Some(i))),
+                    format!("f := (s: {param_ty}, i: int) -> any {{ while v: any = s[i] {{ return (v, std.len(s)); }}; return \"after\"; }}; f({seq_text}, {})", bound_text(Some(i))),
+                ] {
+                    stats.eval();
+                    let o = run::run_text(&text, true);
+                    if let Err(why) = compare(&o, &both, true) {
+                        return fail("C09:at:tested-expression", format!("`{text}`: {why}"));
+                    }
+                }
                 // the index as a statement whose value is discarded (it still fails out of bounds), and the
                 // sequence reached through binders (match arm, if-set) spelled like outer constants
                 let discarded = expected.clone().map(|_| json!(n));
@@ -395,6 +408,16 @@ impl Property for C09Prop {
                 let o = run::run_text(&text, false);
                 if let Err(why) = compare(&o, &Ok(expected.clone()), true) {
                     return fail("C09:slice:constant-bounds", format!("`{text}`: {why}"));
+                }
+                // the slice equals the sequence of the elements it selects, whichever side of `==` it is on
+                // (a slice keeps what it knows about its source; equality is by content)
+                let exp_text = lit::to_text(&expected);
+                let eq_text = format!("f := (s: {param_ty}) -> any {{ x := s{suffix}; m := match ({exp_text}) {{ (x) => 1, => 0, }}; return ({exp_text} == x, x == {exp_text}, [x] == [{exp_text}], {exp_text} != x, m); }}; f({seq_text})");
+                stats.eval();
+                let o = run::run_text(&eq_text, true);
+                let want = lit::tuple(vec![json!(true), json!(true), json!(true), json!(false), json!(1)]);
+                if let Err(why) = compare(&o, &Ok(want), true) {
+                    return fail("C09:slice:equality", format!("`{eq_text}`: {why}"));
                 }
                 // the sequence reached through binders spelled like outer constants
                 let kind_ty = if is_str { "string" } else { "[any]" };
